@@ -47,9 +47,9 @@ class C02(Spec):
     variant = "plain"
     shard = 12
     timeout = 900
-    env = {"PV_CASE_TIMEOUT": "30"}
+    env = {"PV_CASE_TIMEOUT": "60"}
     rule = ("Q: requests built with the real client's request builder (all nine methods, with and without a body; paths of 0-3 segments, 0-4 "
-            "query parameters incl. empty values, 0-4 cookies, 0-4 registered typed headers out of 14 (made by the header registry, filled with parse(), given to the builder; reported by the handler as the typed object it received writes itself), bodies empty / ending in CR / containing CRLFCRLF and "
+            "query parameters incl. empty values, 0-4 cookies, 0-4 registered typed headers out of 14 (made by the header registry, filled with parse(), given to the builder; reported by the handler as the typed object it received writes itself), bodies empty / ending in CR / containing CRLFCRLF, bodies of 3-32 MB (more than the socket takes at once: the client has to wait for the socket and go on) and "
             "'0 CRLF CRLF' / arbitrary octets up to 5 kB) sent through a capturing proxy to a live endpoint: the captured "
             "bytes are compared with the model's rendering of the client's serialiser (cases with at most one query "
             "parameter and one cookie, where no map order is involved) and what the server's handler receives is compared "
@@ -103,6 +103,11 @@ class C02(Spec):
                 hs = " h=" + ",".join("%s:%s" % (pv.hexs(nm.encode()), pv.hexs(typed_header(rng, nm).encode())) for nm in names)
             cases.append("Q %d %s %s %s %s%s" % (m, pv.hexs(path), ",".join("%s=%s" % (pv.hexs(k), pv.hexs(v)) for k, v in qs) or "-",
                                                  ",".join("%s=%s" % (pv.hexs(k), pv.hexs(v)) for k, v in cs) or "-", pv.hexs(body), hs))
+        # request bodies larger than what the socket takes at once (client abort before the fix of the fifth round): alone, and on
+        # a keep-alive connection that has already served a request
+        for n in ([6000000, 16777216, 4252779] if tier == "quick" else [3000000, 4252779, 4252780, 6000000, 8388608, 16777216, 33554432]):
+            cases.append("QB %d 20000" % n)
+        cases.append("QB 6000000 20000 k")
         cases += self.c05.gen(rng, tier)[: (200 if tier == "quick" else 3000)]
         return cases
 
@@ -117,6 +122,11 @@ class C02(Spec):
         if impl.startswith(("CRASH", "HANG")):
             return "wire harness %s on %s" % (impl, case[:200])
         t = case.split()
+        if t[0] == "QB":
+            want = "QB promise=F answer=%s len=%s content=1" % (pv.hexs(("got " + t[1]).encode()), t[1])
+            if impl != want:
+                return "a request with a body of %s bytes did not arrive as built: %s" % (t[1], impl[:200])
+            return None
         if t[0] != "Q":
             return self.c05.oracle(case, impl)
         parsed = impl.split("\tparsed=")[1] if "\tparsed=" in impl else ""
@@ -137,6 +147,8 @@ class C02(Spec):
             if len(t) > 6 and any(x.split(":")[0] == pv.hexs(b"Content-Type") for x in t[6][2:].split(",")) and False:
                 return True
             return impl.split("\tparsed=")[0] == model
+        if case.startswith("QB "):
+            return True              # decided by the oracle (the body is generated on both sides from its length)
         return impl == model
 
     def nontrivial(self, case, impl):
